@@ -473,6 +473,12 @@ pub fn draws() -> impl Strategy<Value = Vec<u8>> {
 /// Derives a variant of `base`: entries dropped, target names (namespace `ns`) changed, comments
 /// added / edited / removed, a few entries added.  A zero stream returns `base` unchanged.
 pub fn edit(base: &MapSet, ns: usize, stream: &[u8]) -> MapSet {
+	edit_keeping(base, ns, stream, false)
+}
+
+/// `edit`; with `keep_unnamed` an entry that has no name in namespace `ns` is never dropped (the draws are consumed all the
+/// same): dropping it could not be written down as a diff of that namespace, gaining a name can.
+pub fn edit_keeping(base: &MapSet, ns: usize, stream: &[u8], keep_unnamed: bool) -> MapSet {
 	let mut d = Draws::new(stream);
 	let n = base.ns.len();
 	fn edit_doc(d: &mut Draws, doc: &mut Option<String>) {
@@ -490,7 +496,7 @@ pub fn edit(base: &MapSet, ns: usize, stream: &[u8]) -> MapSet {
 	}
 	let mut out = MapSet { ns: base.ns.clone(), classes: BTreeMap::new() };
 	for (ck, c) in &base.classes {
-		if d.pct(15) {
+		if d.pct(15) && !(keep_unnamed && c.names[ns].is_none()) {
 			continue;
 		}
 		let mut c = c.clone();
@@ -498,7 +504,7 @@ pub fn edit(base: &MapSet, ns: usize, stream: &[u8]) -> MapSet {
 		edit_doc(&mut d, &mut c.doc);
 		let mut fields = BTreeMap::new();
 		for (fk, f) in &c.fields {
-			if d.pct(15) {
+			if d.pct(15) && !(keep_unnamed && f.names[ns].is_none()) {
 				continue;
 			}
 			let mut f = f.clone();
@@ -516,7 +522,7 @@ pub fn edit(base: &MapSet, ns: usize, stream: &[u8]) -> MapSet {
 		c.fields = fields;
 		let mut methods = BTreeMap::new();
 		for (mk, me) in &c.methods {
-			if d.pct(15) {
+			if d.pct(15) && !(keep_unnamed && me.names[ns].is_none()) {
 				continue;
 			}
 			let mut me = me.clone();
@@ -526,7 +532,7 @@ pub fn edit(base: &MapSet, ns: usize, stream: &[u8]) -> MapSet {
 			edit_doc(&mut d, &mut me.doc);
 			let mut params = BTreeMap::new();
 			for (pk, p) in &me.params {
-				if d.pct(15) {
+				if d.pct(15) && !(keep_unnamed && p.names[ns].is_none()) {
 					continue;
 				}
 				let mut p = p.clone();
